@@ -221,7 +221,9 @@ def h_foreign_checksum(ctx, mods, shape):
     ctx.check(as_sym(p2) == second, 'the parked payload is delivered unchanged')
 
 
-HARNESSES = {'foreign_checksum': h_foreign_checksum, 'readbytes': h_readbytes, 'fragop': h_fragop, 'checksum': h_checksum, 'command': h_command}
+from .c12 import h_fault
+
+HARNESSES = {'fault': h_fault, 'foreign_checksum': h_foreign_checksum, 'readbytes': h_readbytes, 'fragop': h_fragop, 'checksum': h_checksum, 'command': h_command}
 
 NPACKETS = {'shell': 4, 'stat': 4, 'pull': 5}
 
@@ -243,6 +245,10 @@ def shapes(tier, seed):
         for n in range(0, 4 if q else 5):
             out.append({'h': 'checksum', 'impl': impl, 'n': n})
         out.append({'h': 'foreign_checksum', 'impl': impl})
+        # a read that times out after part of a header/payload arrived, then connect() again (with/without close()): reassembly starts clean
+        for lo in (3, 9, 15, 21):
+            for kind in ('timeout', 'eof'):
+                out.append({'h': 'fault', 'impl': impl, 'kind': kind, 'range': [lo, lo + 3], 'partial_before': True, 'noclose': True, 'scenario': ['shell', 'stat']})
         for n in (0, 2):
             for where in (0, 1):
                 out.append({'h': 'command', 'impl': impl, 'n': n, 'where': where})
